@@ -291,6 +291,8 @@ func runC03(r *mc.Run) {
 
 	// (c) unsigned shadow members
 	c03Shadows(r, pool)
+	// (d) a genuine member that lacks a field x an unsigned member that supplies it
+	c03MissingFields(r, pool)
 }
 
 // orderedJSON re-serialises obj keeping the key order of orig (new keys appended).
@@ -531,4 +533,81 @@ func spellKind(member, sp string) string {
 		return "title"
 	}
 	return "unicode-fold"
+}
+
+// c03MissingFields: for every top-level key K of each signed document, the genuine (correctly
+// signed) member lacks K and an unsigned member under each spelling supplies K (alone, or as part of a
+// perfect document). The signed member alone dictates the verdict; unsigned content must not complete it.
+func c03MissingFields(r *mc.Run, pool []*x509.Certificate) {
+	w := world.Honest("T")
+	w.Spec.TeeTcbSvn = []byte{3, 3, 5, 0, 0, 0, 0, 0, 0, 0, 0, 0, 0, 0, 0, 0} // TEE_TCB_SVN[1] != 0: the module identities matter
+	w.Parts = w.Spec.Parts()
+	ti := world.DefaultTcbInfo(w.Plat, w.Parts.Body[0:16])
+	ti.TdxModuleIdentities = []world.ModuleIdentity{{ID: "TDX_03", Mrsigner: strings.Repeat("00", 48), Attributes: "0000000000000000", AttributesMask: "FFFFFFFFFFFFFFFF",
+		TcbLevels: []world.Level{{Tcb: world.Tcb{Isvsvn: world.IntP(3)}, TcbDate: "2029-01-01T00:00:00Z", TcbStatus: "UpToDate"}}}}
+	w.TcbInfo = ti
+	w.Finish()
+	if err := w.Verify(world.L1); err != nil {
+		r.HarnessError("C03 missing-field baseline is not accepted: %v", err)
+		return
+	}
+	type mcase struct {
+		di            int
+		key, spelling string
+		pos           int
+		whole         bool
+	}
+	var cases []mcase
+	docs := c03Docs(w)
+	for di, d := range docs {
+		pairs, _ := ref.TopLevelPairs(d.raw)
+		for _, p := range pairs {
+			for _, sp := range spellings(d.member) {
+				for pos := 0; pos < 2; pos++ {
+					for _, whole := range []bool{false, true} {
+						cases = append(cases, mcase{di, p.Key, sp, pos, whole})
+					}
+				}
+			}
+		}
+	}
+	done := r.Parallel(len(cases), func(i int) {
+		c := cases[i]
+		d := docs[c.di]
+		id := fmt.Sprintf("missing-field/%s/lacks=%s/key=%s/%s/whole=%v", d.member, c.key, c.spelling, []string{"before", "after"}[c.pos], c.whole)
+		if !r.Want(id) {
+			return
+		}
+		pairs, _ := ref.TopLevelPairs(d.raw)
+		var kept []string
+		var supplied string
+		for _, p := range pairs {
+			if p.Key == c.key {
+				supplied = fmt.Sprintf("{%q:%s}", p.Key, p.Raw)
+				continue
+			}
+			kept = append(kept, fmt.Sprintf("%q:%s", p.Key, p.Raw))
+		}
+		genuine := []byte("{" + strings.Join(kept, ",") + "}")
+		if c.whole {
+			supplied = string(d.raw)
+		}
+		sigHex := hex.EncodeToString(w.PKI.TcbKey.SignRaw(genuine))
+		gen := fmt.Sprintf("%q:%s", d.member, genuine)
+		sh := fmt.Sprintf("%q:%s", c.spelling, supplied)
+		var body string
+		if c.pos == 0 {
+			body = "{" + sh + "," + gen + `,"signature":"` + sigHex + `"}`
+		} else {
+			body = "{" + gen + "," + sh + `,"signature":"` + sigHex + `"}`
+		}
+		g := w.Getter.Clone()
+		g.Responses[d.url] = world.Response{Header: w.Getter.Responses[d.url].Header, Body: []byte(body)}
+		o := w.Options(world.L1)
+		o.Getter = g
+		err := world.SafeVerifyRaw(w.Raw(), o)
+		out := c03Judge(r, id, "missing-field:"+c.key+":"+spellKind(d.member, c.spelling), w, g, err, pool)
+		r.Eval(id, true, "missing-field:"+out)
+	})
+	r.SectionDone(mc.Section{Name: "missing-field-x-shadow", Evaluations: int64(done), Exhaustive: done == len(cases)})
 }
